@@ -1,6 +1,7 @@
 package checks
 
 import (
+	"context"
 	"bytes"
 	"encoding/binary"
 	"fmt"
@@ -52,6 +53,9 @@ func elementOffsets(b []byte) []int {
 type c19Target struct {
 	name   string
 	decode func(r io.Reader) error // runs the decoder to the end of the stream
+	// allocExtra is added to the allocation bound: the session targets do bounded work per message
+	// (the server reads and compresses one chunk per REQUEST) that is not driven by any size field
+	allocExtra int
 }
 
 func drainIndex(r io.Reader) error {
@@ -100,6 +104,119 @@ func drainProtocol(r io.Reader) error {
 	return nil
 }
 
+// c19MemStore serves the chunks of a protocol session.
+type c19MemStore map[desync.ChunkID][]byte
+
+func (m c19MemStore) GetChunk(id desync.ChunkID) (*desync.Chunk, error) {
+	b, ok := m[id]
+	if !ok {
+		return nil, desync.ChunkMissing{ID: id}
+	}
+	return desync.NewChunk(b), nil
+}
+func (m c19MemStore) HasChunk(id desync.ChunkID) (bool, error) { _, ok := m[id]; return ok, nil }
+func (m c19MemStore) Close() error                             { return nil }
+func (m c19MemStore) String() string                           { return "c19mem" }
+
+// c19ProtoSession: the bytes one side of a casync protocol session receives, interpreted by the code that
+// acts on the messages rather than by ReadMessage alone - the server's request loop (HELLO, REQUESTs,
+// GOODBYE from a client) or the client's Initialize + RequestChunk sequence (HELLO, CHUNK/MISSING replies
+// from a server). The valid stream must be served without error; every damaged one without a panic or an
+// allocation out of proportion. Bit flips that turn on the content-size width bits of a zstd frame header
+// inside a CHUNK reply are left out: what the decompressor allocates for a damaged chunk payload is not
+// message parsing (C03 and C14 leave the same two bits out for the same reason).
+func c19ProtoSession(c *fw.Case) ([]byte, c19Target, func(int, uint) bool) {
+	r := c.Rand("session.seed")
+	store := c19MemStore{}
+	var ids []desync.ChunkID
+	for i, n := 0, c.Range(1, 5, "session.chunks"); i < n; i++ {
+		b := make([]byte, 1+r.IntN(600))
+		for j := range b {
+			b[j] = byte(r.IntN(256))
+		}
+		if r.IntN(3) == 0 {
+			b = bytes.Repeat(b[:1], len(b)) // compresses well: the reply is much shorter than the chunk
+		}
+		ch := desync.NewChunk(b)
+		store[ch.ID()] = b
+		ids = append(ids, ch.ID())
+	}
+	var buf bytes.Buffer
+	p := desync.NewProtocol(bytes.NewReader(nil), &buf)
+	hello := func(flags uint64) {
+		f := make([]byte, 8)
+		binary.LittleEndian.PutUint64(f, flags)
+		p.WriteMessage(desync.Message{Type: desync.CaProtocolHello, Body: f})
+	}
+	const perMessage = 64 << 10
+	if c.Bool("session.server") {
+		hello(desync.CaProtocolPullChunks)
+		n := c.Range(1, 6, "session.requests")
+		for i := 0; i < n; i++ {
+			body := make([]byte, 40)
+			binary.LittleEndian.PutUint64(body, uint64(r.IntN(2)))
+			copy(body[8:], ids[r.IntN(len(ids))][:])
+			p.WriteMessage(desync.Message{Type: desync.CaProtocolRequest, Body: body})
+		}
+		p.WriteMessage(desync.Message{Type: desync.CaProtocolGoodbye, Body: nil})
+		return buf.Bytes(), c19Target{"ProtocolServer.Serve", func(rd io.Reader) error {
+			return desync.NewProtocolServer(rd, io.Discard, store).Serve(context.Background())
+		}, (n + 2) * perMessage}, nil
+	}
+	// client side
+	hello(desync.CaProtocolReadableStore)
+	var asked []desync.ChunkID
+	type span struct{ from, to int }
+	var frames []span
+	for i, n := 0, c.Range(1, 6, "session.requests"); i < n; i++ {
+		id := ids[r.IntN(len(ids))]
+		asked = append(asked, id)
+		if r.IntN(4) == 0 {
+			p.WriteMessage(desync.Message{Type: desync.CaProtocolMissing, Body: id[:]})
+			continue
+		}
+		comp, err := desync.Compress(store[id])
+		if err != nil {
+			c.HarnessError("%v", err)
+			return nil, c19Target{}, nil
+		}
+		body := make([]byte, 40, 40+len(comp))
+		binary.LittleEndian.PutUint64(body, desync.CaProtocolChunkCompressed)
+		copy(body[8:], id[:])
+		body = append(body, comp...)
+		start := buf.Len() + 16 + 40
+		frames = append(frames, span{start, start + len(comp)})
+		p.WriteMessage(desync.Message{Type: desync.CaProtocolChunk, Body: body})
+	}
+	skip := func(pos int, bit uint) bool {
+		for _, f := range frames {
+			if pos == f.from+4 && bit >= 6 {
+				return true
+			}
+		}
+		return false
+	}
+	return buf.Bytes(), c19Target{"Protocol.RequestChunk", func(rd io.Reader) error {
+		cl := desync.NewProtocol(rd, io.Discard)
+		if _, err := cl.Initialize(desync.CaProtocolPullChunks); err != nil {
+			return err
+		}
+		for _, id := range asked {
+			ch, err := cl.RequestChunk(id)
+			if _, missing := err.(desync.ChunkMissing); missing {
+				continue
+			}
+			if err != nil {
+				return err
+			}
+			if _, err := ch.Data(); err != nil {
+				return err
+			}
+		}
+		return nil
+	}, (len(asked) + 1) * perMessage}, skip
+}
+
 func runC19(c *fw.Case) {
 	if desyncBin() != "" && c.ChanceAdded(1, procRate(12), "c19.proc") {
 		runC19Proc(c)
@@ -108,6 +225,7 @@ func runC19(c *fw.Case) {
 	kind := c.Draw(5, "c19.kind") // 0 index->IndexFromReader, 1 index via HTTP PUT, 2 catar->FormatDecoder, 3 catar->ArchiveDecoder, 4 protocol
 	var valid []byte
 	var tgt c19Target
+	var skipFlip func(pos int, bit uint) bool // bit flips the case leaves out (see c19ProtoSession)
 	switch kind {
 	case 0, 1:
 		sz := genSizes(c)
@@ -128,7 +246,7 @@ func runC19(c *fw.Case) {
 		idx.WriteTo(&buf)
 		valid = buf.Bytes()
 		if kind == 0 {
-			tgt = c19Target{"IndexFromReader", drainIndex}
+			tgt = c19Target{"IndexFromReader", drainIndex, 0}
 		} else {
 			dir := filepath.Join(c.Dir(), "idx")
 			os.MkdirAll(dir, 0755)
@@ -142,7 +260,7 @@ func runC19(c *fw.Case) {
 					return fmt.Errorf("status %d", rec.Code)
 				}
 				return nil
-			}}
+			}, 0}
 		}
 	case 2, 3:
 		var b []byte
@@ -162,11 +280,15 @@ func runC19(c *fw.Case) {
 		}
 		valid = b
 		if kind == 2 {
-			tgt = c19Target{"FormatDecoder.Next", drainFormat}
+			tgt = c19Target{"FormatDecoder.Next", drainFormat, 0}
 		} else {
-			tgt = c19Target{"ArchiveDecoder.Next", drainArchive}
+			tgt = c19Target{"ArchiveDecoder.Next", drainArchive, 0}
 		}
 	case 4:
+		if c.ChanceAdded(1, 2, "c19.proto.session") {
+			valid, tgt, skipFlip = c19ProtoSession(c)
+			break
+		}
 		var buf bytes.Buffer
 		p := desync.NewProtocol(bytes.NewReader(nil), &buf)
 		r := c.Rand("proto.seed")
@@ -180,7 +302,7 @@ func runC19(c *fw.Case) {
 			p.WriteMessage(desync.Message{Type: types[r.IntN(len(types))], Body: body})
 		}
 		valid = buf.Bytes()
-		tgt = c19Target{"Protocol.ReadMessage", drainProtocol}
+		tgt = c19Target{"Protocol.ReadMessage", drainProtocol, 0}
 	}
 	c.Class(fmt.Sprintf("%s len<=%d", tgt.name, (len(valid)+1023)/1024*1024))
 	c.Note("%s valid stream of %d bytes", tgt.name, len(valid))
@@ -202,8 +324,8 @@ func runC19(c *fw.Case) {
 		if measure {
 			runtime.ReadMemStats(&m1)
 			alloc := m1.TotalAlloc - m0.TotalAlloc
-			if alloc > uint64(c19AllocFactor*len(input)+c19AllocConst) {
-				c.Violate("allocation-out-of-proportion", tgt.name, "%s: decoding %d input bytes allocated %d bytes (bound %d*len+%d)", what, len(input), alloc, c19AllocFactor, c19AllocConst)
+			if alloc > uint64(c19AllocFactor*len(input)+c19AllocConst+tgt.allocExtra) {
+				c.Violate("allocation-out-of-proportion", tgt.name, "%s: decoding %d input bytes allocated %d bytes (bound %d*len+%d)", what, len(input), alloc, c19AllocFactor, c19AllocConst+tgt.allocExtra)
 				return false
 			}
 		}
@@ -299,7 +421,11 @@ func runC19(c *fw.Case) {
 	for i := 0; i < 64 && len(valid) > 0; i++ {
 		b := append([]byte(nil), valid...)
 		p := r.IntN(len(b))
-		b[p] ^= byte(1 << uint(r.IntN(8)))
+		bit := uint(r.IntN(8))
+		if skipFlip != nil && skipFlip(p, bit) {
+			bit = 2
+		}
+		b[p] ^= byte(1 << bit)
 		c.Fault("bit-flip")
 		// flips can turn a size into a moderately large value that is really allocated; measured like the rest
 		if !run(b, fmt.Sprintf("bit flipped in byte %d", p), true, r.IntN(4), 0) {
